@@ -89,6 +89,11 @@ Theorem C08_cat : forall ss dim out,
 Proof. exact cat_correct. Qed.
 Print Assumptions C08_cat.
 
+(* the repaired code (proposed_fixes/ready/C08_15_cat_concat_filtered_tensors.diff): no hypothesis about legacy empty tensors *)
+Theorem C08_cat_fixed : forall ss dim out, torch_cat_shape ss dim = Some out -> aten_cat_fixed ss dim = Some out.
+Proof. exact cat_fixed_correct. Qed.
+Print Assumptions C08_cat_fixed.
+
 Theorem C08_stack : forall ss dim out, torch_stack_shape ss dim = Some out -> aten_stack ss dim = Some out.
 Proof. exact stack_correct. Qed.
 Print Assumptions C08_stack.
